@@ -41,3 +41,15 @@ func VerifFirstCost[PK any, K comparable, V any](p *ECache[PK, K, V]) int {
 	}
 	return c
 }
+
+// VerifOrder returns the inner keys of the live entries in recency order (least recently used first).
+func VerifOrder[PK any, K comparable, V any](p *ECache[PK, K, V]) []string {
+	ns, _, _ := iterable.VerifMapDump(p.items)
+	var r []string
+	for _, n := range ns {
+		if n.State == 1 {
+			r = append(r, fmt.Sprint(n.Key))
+		}
+	}
+	return r
+}
